@@ -1055,8 +1055,14 @@ class Process(StateMachine, persistence.Savable, metaclass=ProcessStateMachineMe
                         f'Full Traceback:\n{tb_str}'
                     ) from exc
                 else:
-                    while asyncio.isfuture(result):
-                        result = await result
+                    try:
+                        while asyncio.isfuture(result):
+                            result = await result
+                    except asyncio.CancelledError:
+                        # The action the callback handed back was cancelled (e.g. a pending pause cancelled by a play or
+                        # superseded by a kill): tell the sender instead of leaving the reply pending forever
+                        kiwi_future.cancel()
+                        return
 
                     kiwi_future.set_result(result)
 
